@@ -534,7 +534,7 @@ def r3(facts):
                     continue
                 n += 1
                 construct = '%s(%s)' % (cn, show(size)[:50])
-                gf = guard_facts(fn, b, st)
+                gf = guard_facts(fn, b, st) + guard_facts(fn, b, st, sd=single_defs(fn.d))      # `const size_t bytesLeft = fileSize() - tell();` reads as the difference
                 txt = ' ; '.join(fact_str(f) for f in gf)
                 names = [show(y) for y in walk(size) if y.get('k') in ('DeclRefExpr', 'MemberExpr') and not callee_name(y)]
                 ok = False
@@ -1526,25 +1526,16 @@ def r10(facts):
         stmts = list(fn.cfg.stmts())
         # buckets: local containers that only ever receive events of given types (push_back under a type guard)
         bucket_types = {}
-        for b, j, st in stmts:
-            for x in calls_in(st['s']):
-                tgt = src_e = None
-                if short(callee_name(x)) == 'push_back' and x.get('obj') is not None and strip(x['obj']).get('k') == 'DeclRefExpr' and x.get('a'):
-                    tgt, src_e = strip(x['obj']), x['a'][0]
-                elif callee_name(x) in wrappers and x.get('obj') is None:
-                    pi, qi = wrappers[callee_name(x)]
-                    if len(x.get('a') or []) > max(pi, qi) and strip(x['a'][pi]).get('k') == 'DeclRefExpr':
-                        tgt, src_e = strip(x['a'][pi]), x['a'][qi]
-                if tgt is not None:
-                    bname = short(tgt['n'])
-                    src = _evkey(src_e)
-                    tys = set()
-                    for f in guard_facts(fn, b, st):
-                        if f[0] == 'cmp' and f[1] == '==' and strip(f[2]).get('k') == 'MemberExpr' and short(strip(f[2])['n']) == 'type' and _evkey(strip(f[2])['b']) == src:
-                            c = const_of(f[3])
-                            if c is not None:
-                                tys.add(c)
-                    bucket_types.setdefault(bname, []).append(tys)
+        for tgt, src_e, gf_, loc_ in append_sites(fn, wrappers):
+            bname = short(tgt['n'])
+            src = _evkey(src_e)
+            tys = set()
+            for f in gf_:
+                if f[0] == 'cmp' and f[1] == '==' and strip(f[2]).get('k') == 'MemberExpr' and short(strip(f[2])['n']) == 'type' and _evkey(strip(f[2])['b']) == src:
+                    c = const_of(f[3])
+                    if c is not None:
+                        tys.add(c)
+            bucket_types.setdefault(bname, []).append(tys)
         for b, j, st in stmts:
             for x in walk(st['s']):
                 if not (short(x.get('callee', '')) == 'operator[]' and x.get('a') and strip(x['a'][0]).get('k') == 'MemberExpr' and short(strip(x['a'][0])['n']) == 'data'
